@@ -24,8 +24,8 @@ type vKV struct {
 }
 
 func (k *vKV) Open(string, os.FileMode, time.Duration) error { return nil }
-func (k *vKV) Close() error                                   { return nil }
-func (k *vKV) Put(key, val []byte) error                      { k.data[string(key)] = val; return nil }
+func (k *vKV) Close() error                                  { return nil }
+func (k *vKV) Put(key, val []byte) error                     { k.data[string(key)] = val; return nil }
 func (k *vKV) Get(key []byte) ([]byte, error) {
 	v, ok := k.data[string(key)]
 	if !ok {
